@@ -195,5 +195,6 @@ func Memo(key string, f func() any) any {
 	return v
 }
 
-// Stdout returns the writes to standard output captured by the engine.
+// Stdout / Stderr return the writes captured by the engine.
 func Stdout() []string { return nil }
+func Stderr() []string { return nil }
